@@ -105,7 +105,7 @@ func r3C04(c *Ctx) {
 	}
 	n := 0
 	for _, ret := range returnsOf(fn) {
-		for _, lf := range Leaves(ret.Results[0], ret.Block()) {
+		for _, lf := range BoolLeaves(ret.Results[0], ret.Block()) {
 			k, ok := lf.V.(*ssa.Const)
 			if !ok || constText(k) != "false" {
 				continue
@@ -128,8 +128,8 @@ func r3C04(c *Ctx) {
 			c.Ob("R4.5b", "IsRealPartition#return(false)", ret.Pos(), ok2, "not-partition is answered for an empty strategy, blue-green, or a workload whose kind was compared", ifs(!ok2, "this `return false` does not depend on the workload kind: StatefulSet / CloneSet / DaemonSet rollouts converted from v1alpha1 (enableExtraWorkloadForCanary=true) are then treated like a canary Deployment, the stable Service stays pinned while every pod is replaced")).WithFacts(fs)
 		}
 	}
-	if n < 3 {
-		c.Ob("R4.5b", "IsRealPartition#returns", fn.Pos(), false, "false returns", fmt.Sprintf("found %d, expected 3", n))
+	if n < 2 {
+		c.Ob("R4.5b", "IsRealPartition#returns", fn.Pos(), false, "false returns", fmt.Sprintf("found %d, expected at least 2", n))
 	}
 }
 
